@@ -1,11 +1,11 @@
 /-
 Driver for stream `vm` (C12): the accounting model executes the instruction stream of the real VM.
   case <k>                                   -> case <k>          (state reset)
-  load                                       -> NONE 0 0 1 0 0    (entry script loaded)
+  load                                       -> NONE 0 0 1 0      (entry script loaded)
   gas <limit picoGAS|-1> <base>              -> echo             (gas limit and price base of the case)
   (TRY / TRY_L carry <hasCatch> <hasFinally>; `|T k c` is what the real VM did: the model computes its own
    unwinding outcome from its try stacks and answers `unwind-mismatch(…)` if they differ)
-  i <NAME> <args…> [|T <k> <c>] [!]          -> <NONE|HALT> <refs> <reach> <depth> <reachG> <datoshi> | FAULT
+  i <NAME> <args…> [|T <k> <c>] [!]          -> <NONE|HALT> <refs> <reach> <depth> <datoshi> | FAULT
   e <obs…>                                   -> <obs…>            (echo: the case left the modelled set)
   chk <hex>                                  -> ok | bad          (Model/ScriptCheck.isScriptCorrect = scparser.IsScriptCorrect)
 `refs` is the model of the implementation's counter (as vm.go updates it), `reach` the number of
@@ -25,7 +25,6 @@ open NeoModel NeoModel.VmAcct
 
 structure DState where
   t : TSt := {}
-  lk : List Item := []      -- ghost list: items of the evaluation stacks dropped by exception unwinding
   dead : Bool := false
 
 def natArg (ts : List String) (i : Nat) : Nat := ((ts[i]?).bind String.toNat?).getD 0
@@ -137,12 +136,10 @@ def reachObsFrom (heap : Heap) (roots : List Item) : String :=
 
 def reachObs (s : St) : String := reachObsFrom s.c.heap s.roots
 
-/-- `<state> <refs> <reach> <depth> <reachG>`: reachG = what a walk from the roots AND from the ghost
-list finds (theorem `refs_exact_unwind`: equals refs as long as no cycle was built) -/
-def obs (g : GSt) (lk : List Item) : String :=
+/-- `<state> <refs> <reach> <depth> <datoshi>` -/
+def obs (g : GSt) : String :=
   let s := g.s
-  let rg := if lk.isEmpty then reachObs s else reachObsFrom s.c.heap (s.roots ++ lk)
-  s!"{if s.halted then "HALT" else "NONE"} {s.c.refs} {reachObs s} {s.depth} {rg} {g.datoshi}"
+  s!"{if s.halted then "HALT" else "NONE"} {s.c.refs} {reachObs s} {s.depth} {g.datoshi}"
 
 /-- TRY / TRY_L come with "which handler offsets are present", ENDTRY* is recognised by name -/
 def topOf (name : String) (a : List String) : TOp :=
@@ -166,7 +163,7 @@ def splitTail (ts : List String) : List String × Option (Nat × Bool) × Bool :
 def stepD (d : DState) (ts : List String) : DState × String :=
   match ts with
   | "case" :: _ => ({}, " ".intercalate ts)
-  | ["load"] => (d, obs d.t.g d.lk)
+  | ["load"] => (d, obs d.t.g)
   | ["gas", l, b] =>
     -- `gas <limit in picoGAS | -1> <price base>`: the configuration of the case (echoed)
     let lim : Option Nat := match l.toInt? with | some n => if n < 0 then none else some n.toNat | none => none
@@ -189,8 +186,7 @@ def stepD (d : DState) (ts : List String) : DState × String :=
         if unwM != unw then
           ({ d with dead := true }, s!"unwind-mismatch(model {repr unwM}, real {repr unw})")
         else
-          let lk' := if unwM.isNone then d.lk else d.lk ++ droppedBy d.t.g.s op unwM
-          ({ d with t := t', lk := lk' }, obs t'.g lk')
+          ({ d with t := t' }, obs t'.g)
   | _ => (d, "bad-op")
 
 def main : IO Unit := Proto.run ({} : DState) stepD
